@@ -135,6 +135,8 @@ class ImplBase:
         tag, v = r
         if tag == "err": return "err " + v
         if kind == "ok": return "ok"
+        # an accepted cancellation reports success: the nodes test the return value (Machine / Splitter raise when it is falsy)
+        if kind == "cancel": return "ok" if v else f"ok-but-returned-{v!r}"
         if kind == "item":
             it = v[0] if isinstance(v, tuple) else v
             return f"item {getattr(it, 'hid', '?')}"
@@ -193,9 +195,9 @@ class PosImpl(ImplBase):
             _, a, t = op
             return self.fmt(self.call(a, st.get, self.tok(t)), "item")
         if k == "cp":
-            return self.fmt(self.call(None, st.reserve_put_cancel, self.tok(op[1])), "ok")
+            return self.fmt(self.call(None, st.reserve_put_cancel, self.tok(op[1])), "cancel")
         if k == "cg":
-            return self.fmt(self.call(None, st.reserve_get_cancel, self.tok(op[1])), "ok")
+            return self.fmt(self.call(None, st.reserve_get_cancel, self.tok(op[1])), "cancel")
         if k == "stat":
             now = f2t(self.env.now)
             if self.filt: return f"stat nostat {len(st.items)} {now}"
@@ -271,9 +273,9 @@ class BufImpl(ImplBase):
         if k == "get":
             return self.fmt(self.call(op[1], api.get, self.tok(op[2])), "item")
         if k == "cp":
-            return self.fmt(self.call(None, api.reserve_put_cancel, self.tok(op[1])), "ok")
+            return self.fmt(self.call(None, api.reserve_put_cancel, self.tok(op[1])), "cancel")
         if k == "cg":
-            return self.fmt(self.call(None, api.reserve_get_cancel, self.tok(op[1])), "ok")
+            return self.fmt(self.call(None, api.reserve_get_cancel, self.tok(op[1])), "cancel")
         if k == "final":
             if self.edge is not None:
                 r = self.call(None, self.edge.update_final_buffer_avg_content, self.env.now)
@@ -403,9 +405,9 @@ class SlotImpl(FleetImpl):
         if op[0] == "probe" and op[1] == "mode":
             return f"probe {self.edge.state} {self.store.noaccumulation_mode_on}"
         if op[0] == "cp":      # the edge has no cancel methods; nodes cancel through event.resourcename (the belt store)
-            return self.fmt(self.call(None, self.store.reserve_put_cancel, self.tok(op[1])), "ok")
+            return self.fmt(self.call(None, self.store.reserve_put_cancel, self.tok(op[1])), "cancel")
         if op[0] == "cg":
-            return self.fmt(self.call(None, self.store.reserve_get_cancel, self.tok(op[1])), "ok")
+            return self.fmt(self.call(None, self.store.reserve_get_cancel, self.tok(op[1])), "cancel")
         if op[0] in ("rp", "rg") and len(op) > 2:
             # the slotted ConveyorBelt only forwards reserve_put / reserve_get to its BeltStore; the store's `priority`
             # argument (which no edge or node passes) is exercised by calling the store's own method
@@ -480,9 +482,9 @@ class CBeltImpl(FleetImpl):
                 except Exception: return "probe err"
             return "probe skip"      # can_put / can_get raise AttributeError (defect D6); not part of the model
         if op[0] == "cp":
-            return self.fmt(self.call(None, self.store.reserve_put_cancel, self.tok(op[1])), "ok")
+            return self.fmt(self.call(None, self.store.reserve_put_cancel, self.tok(op[1])), "cancel")
         if op[0] == "cg":
-            return self.fmt(self.call(None, self.store.reserve_get_cancel, self.tok(op[1])), "ok")
+            return self.fmt(self.call(None, self.store.reserve_get_cancel, self.tok(op[1])), "cancel")
         return BufImpl.dispatch(self, op)
 
 
